@@ -125,14 +125,14 @@ theorem RecOK.job_step {cfg : Cfg} {s : St} {d d' : Disk} {r : Recov} (h : RecOK
 /-- a step of the job that keeps its kind and does not go back behind the commit keeps `FlushPending` backwards -/
 theorem flushPending_of_step {s : St} {j j' : Job} {nf' : Nat} {l' : List Nat} {a' b' : Nat} {m' : Option Nat}
     {o' : Bool} (hj : s.job = some j) (hk : j'.kind = j.kind)
-    (hpc : j.kind = .flush → j.pc.beforeCommit = false → j'.pc.beforeCommit = false)
+    (hpc : j.kind = .flush → j.pc.uninstalled = false → j'.pc.uninstalled = false)
     (h : FlushPending (s.upd j' nf' l' a' b' m' o')) : FlushPending s := by
   unfold FlushPending at h ⊢
   rw [hj]
   intro hf
-  have h' : j'.kind = .flush → j'.pc.beforeCommit = true := h
+  have h' : j'.kind = .flush → j'.pc.uninstalled = true := h
   have := h' (by rw [hk]; exact hf)
-  cases hb : j.pc.beforeCommit with
+  cases hb : j.pc.uninstalled with
   | true => rfl
   | false => rw [hpc hf hb] at this; cases this
 
@@ -142,7 +142,7 @@ theorem phase_frame {cfg : Cfg} {s : St} {d d' : Disk} (h : Inv cfg s d) (j' : J
     (hcm : curManifest d' = curManifest d)
     (hpc : ∀ m, j'.pc ≠ .rotRemove m) (hjob : ∃ j, s.job = some j ∧ ∀ m, j.pc ≠ .rotRemove m)
     (hbc : j'.pc.beforeCommit = true → NoCommitYet s)
-    (hkind : ∀ j, s.job = some j → j'.kind = j.kind ∧ (j.kind = .flush → j.pc.beforeCommit = false → j'.pc.beforeCommit = false))
+    (hkind : ∀ j, s.job = some j → j'.kind = j.kind ∧ (j.kind = .flush → j.pc.uninstalled = false → j'.pc.uninstalled = false))
     (hlimbo : s.phase = .running → LimboOK { s with job := some j', nextFile := nf' } d') :
     (s.phase = .running → RunOK cfg { s with job := some j', nextFile := nf' } d') ∧
     (s.phase = .recovering → Holds s.recov (RecOK cfg { s with job := some j', nextFile := nf' } d')) := by
